@@ -1,5 +1,5 @@
 use crate::messages::message::Payload;
-use crate::util::{var_int, ChainGangError, Hash256, Serializable};
+use crate::util::{read_bytes, var_int, ChainGangError, Hash256, Serializable};
 use byteorder::{ReadBytesExt, WriteBytesExt};
 use std::fmt;
 use std::io;
@@ -49,14 +49,12 @@ impl Serializable<Reject> for Reject {
     // so clippy thinks that we are reading into a zero byte buffer.
     #[allow(clippy::read_zero_byte_vec)]
     fn read(reader: &mut dyn Read) -> Result<Reject, ChainGangError> {
-        let message_size = var_int::read(reader)? as usize;
-        let mut message_bytes = vec![0; message_size];
-        reader.read_exact(&mut message_bytes)?;
+        let message_size = var_int::read(reader)?;
+        let message_bytes = read_bytes(reader, message_size)?;
         let message = String::from_utf8(message_bytes)?;
         let code = reader.read_u8()?;
-        let reason_size = var_int::read(reader)? as usize;
-        let mut reason_bytes = vec![0; reason_size];
-        reader.read_exact(&mut reason_bytes)?;
+        let reason_size = var_int::read(reader)?;
+        let reason_bytes = read_bytes(reader, reason_size)?;
         let reason = String::from_utf8(reason_bytes)?;
         let mut data = vec![];
         if message == *"block" || message == *"tx" {
